@@ -604,7 +604,13 @@ def gen_scenario(rng, idx, big=False):
         if not wf_tree(src) and not wf_tree(tgt):
             break
     extras = gen_extras(rng, tgt, rng.choice([0, 0, 1, 2]))
-    return dict(src=src, tgt=tgt, extras=extras, mode=rng.choice(["readd", "ops"]), log=log, idx=idx)
+    mode = rng.choice(["readd", "ops"])
+    if any(i in src and src[i]["kind"] != "directory" and e["kind"] == "directory" and children(tgt, i)
+           for i, e in tgt.items()):
+        # a file that became a directory *behind the tree's back* cannot take children through
+        # real add/rename operations (the inventory still says "file"): rebuild by re-adding
+        mode = "readd"
+    return dict(src=src, tgt=tgt, extras=extras, mode=mode, log=log, idx=idx)
 
 
 def gen_queries(rng, sc, nfilters):
